@@ -116,7 +116,7 @@ def gen_v5_list(ctx, nm, little, addr, kinds, loc, addrs):
         ex = None
         if loc and kind not in ('base_addressx', 'base_address'):
             ex = _expr(ctx, v + '.expr', k[1] if len(k) > 1 else 0)
-            b += enc.uleb_enc(len(ex), 1) + ex
+            b += enc.uleb_enc(len(ex), k[2] if len(k) > 2 else 1) + ex      # the expression length is a ULEB128 (here possibly padded)
             fields['loc_expr'] = list(ex)
         out += b
         want.append((tr, off, len(b), None if ex is None else list(ex)))
@@ -245,17 +245,32 @@ def h_v5(ctx):
     use_attr = AT['location'] if loc else AT['ranges']
     idx = ctx.int_range('index', 0, 1)
     attrs = [(use_attr, 0x22 if loc else 0x23, enc.uleb_enc(idx, 1)), (base_attr, 0x17, enc.enc_int(info['table_off'], offsz, little))]
+    secname = 'debug_loclists' if loc else 'debug_rnglists'
+    secs = {secname: blk}
+    both = cfg.get('both')
+    if both:
+        # the same unit also uses the OTHER indexed form (both index spaces start at 0, the two offset tables differ)
+        m0, _w, _r = gen_v5_list(ctx, 'c', little, addr, [('start_end', 0), ('offset_pair', 0)], not loc, addrs)
+        m1, _w, _r = gen_v5_list(ctx, 'd', little, addr, [('offset_pair', 0)], not loc, addrs)
+        blk2, info2 = _v5_block(ctx, little, addr, fmt64, [m0, m1], with_table=True)
+        idx2 = ctx.int_range('index2', 0, 1)
+        oattrs = [(AT['ranges'] if loc else AT['location'], 0x23 if loc else 0x22, enc.uleb_enc(idx2, 1)),
+                  (AT['rnglists_base'] if loc else AT['loclists_base'], 0x17, enc.enc_int(info2['table_off'], offsz, little))]
+        attrs = (oattrs + attrs) if both == 'other-first' else (attrs + oattrs)
+        secs['debug_rnglists' if loc else 'debug_loclists'] = blk2
     if cfg.get('base_first'):
         attrs = attrs[::-1]
     cu, ab = _mk_cu(ctx, little, addr, 5, fmt64, attrs, addr_base=abase)
-    secname = 'debug_loclists' if loc else 'debug_rnglists'
-    di, streams = mk_dwarfinfo(ctx, little, addr, debug_info=cu, debug_abbrev=ab, debug_addr=addrsec, **{secname: blk})
+    di, streams = mk_dwarfinfo(ctx, little, addr, debug_info=cu, debug_abbrev=ab, debug_addr=addrsec, **secs)
     unit = next(di.iter_CUs())
     top = unit.get_top_DIE()
     a = top.attributes['DW_AT_location' if loc else 'DW_AT_ranges']
     k = ctx.concretize(idx)
     ctx.outcome('ok')
     label = 'v5/%s' % ('loc' if loc else 'rng')
+    if both:
+        o = top.attributes['DW_AT_ranges' if loc else 'DW_AT_location']
+        ctx.check_eq(label + '/other-indexed-form/index->offset', o.value, ctx.select(info2['offs'], idx2))
     ctx.check_eq(label + '/index->offset', a.value, info['offs'][k])
     ctx.check_eq(label + '/raw-index', a.raw_value, idx)
     lists = di.location_lists() if loc else di.range_lists()
@@ -507,6 +522,10 @@ def _v5_instances(tier):
                 for fmt64 in (False, True):
                     out.append(dict(little=little, addr=addr, loc=loc, fmt64=fmt64, kinds=[(kn, 2)], base_first=fmt64))
             out.append(dict(little=little, addr=addr, loc=loc, kinds=[], base_first=True))
+            for both in ('other-first', 'other-last'):
+                out.append(dict(little=little, addr=addr, loc=loc, kinds=[('offset_pair', 1), ('base_address',)], base_first=(both == 'other-last'), both=both))
+            if loc:
+                out.append(dict(little=little, addr=addr, loc=True, kinds=[('offset_pair', 2, 2), ('start_length', 1, 3), ('default_location', 0, 2)], base_first=True))
             out.append(dict(little=little, addr=addr, loc=loc, kinds=[('base_addressx',), ('offset_pair', 0), ('start_length', 1)], base_first=False))
             out.append(dict(little=little, addr=addr, loc=loc, kinds=[('startx_endx', 1), ('base_address',), ('startx_length', 0)], base_first=True))
     return out
